@@ -145,9 +145,11 @@ def gen(rng):
     raise RuntimeError("no aligned group pair")
 
 
-def gen_shared(rng):
+def gen_shared(rng, force=None):
     """One group used by several declarations, with and without constraints, in any order (the group must
-    be expanded per use site).  Returns (text with groups, hand-inlined text)."""
+    be expanded per use site).  Returns (text with groups, hand-inlined text).
+    `force`: "plain-first" makes the FIRST use unconstrained and the second constrained, "plain-last" the reverse
+    (what an expansion cache keyed by the group alone gets wrong depends on which comes first)."""
     enums = "enum Ge : 8 { GA = 1, GB = 2, GC = 0x30 }\n"
     w1, w2 = rng.choice([(8, 8), (3, 5), (12, 4), (16, 8)])
     gfields = [("len", w1), ("kind", "Ge"), ("seq", w2)]
@@ -172,6 +174,9 @@ def gen_shared(rng):
                 cs.update(same)
         else:
             cs["len"] = str((i * 37 + 1) % (1 << w1))
+        if force and i < 2:
+            plain = (i == 0) == (force == "plain-first")
+            cs = {} if plain else {"kind": "GB", "len": str((w1 * 5 + 3) % (1 << w1))}
         use = "Header" + ((" { %s }" % ", ".join("%s = %s" % kv for kv in cs.items())) if cs else "")
         flat = []
         for (fid, ty) in gfields:
